@@ -289,6 +289,24 @@ theorem afiSafi_unreach (f : Fam) (nlri : Bytes) :
   have : (UInt8.ofNat (famCode f).2).toNat = (famCode f).2 := by simp [UInt8.toNat_ofNat']; omega
   simp [afiSafi, unreachValue, rd16_be16 _ h1, rd8, this]
 
+/-- any (AFI, SAFI) code points, any reserved octet -/
+theorem afiSafi_mpReach (k : Nat × Nat) (h1 : k.1 < 65536) (h2 : k.2 < 256) (nh : Bytes) (rsv : UInt8)
+    (body : Bytes) :
+    afiSafi (mpReachValue k nh rsv body) = some (k, UInt8.ofNat nh.length :: (nh ++ (rsv :: body))) := by
+  have : (UInt8.ofNat k.2).toNat = k.2 := by simp [UInt8.toNat_ofNat']; omega
+  simp [afiSafi, mpReachValue, rd16_be16 _ h1, rd8, this]
+
+theorem afiSafi_mpUnreach (k : Nat × Nat) (h1 : k.1 < 65536) (h2 : k.2 < 256) (body : Bytes) :
+    afiSafi (mpUnreachValue k body) = some (k, body) := by
+  have : (UInt8.ofNat k.2).toNat = k.2 := by simp [UInt8.toNat_ofNat']; omega
+  simp [afiSafi, mpUnreachValue, rd16_be16 _ h1, rd8, this]
+
+/-- `NextHop::skip` + `advance(1)`: the reserved octet is passed over whatever its value -/
+theorem skipNextHop_mp (nh : Bytes) (rsv : UInt8) (body : Bytes) (hn : nh.length < 256) :
+    skipNextHop (UInt8.ofNat nh.length :: (nh ++ (rsv :: body))) = some body := by
+  have : (UInt8.ofNat nh.length).toNat = nh.length := by simp [UInt8.toNat_ofNat']; omega
+  simp only [skipNextHop, this, takeN_append]
+
 theorem skipNextHop_enc (nh nlri : Bytes) (hn : nh.length < 256) :
     skipNextHop (UInt8.ofNat nh.length :: (nh ++ (0 :: nlri))) = some nlri := by
   have : (UInt8.ofNat nh.length).toNat = nh.length := by simp [UInt8.toNat_ofNat']; omega
